@@ -165,13 +165,31 @@ READ_ONLY_METHODS = {'get', 'items', 'keys', 'values', 'index', 'count', 'copy',
 IMMUTABLE_CALLS = {'frozenset', 'tuple', 'object', 'str', 'bytes', 'int', 'float', 're.compile', 'namedtuple', 'collections.namedtuple', 'property', 'staticmethod', 'classmethod'}
 
 
-def _mutable_value(v):
+def _stateless_class(model, module, func_expr):
+    """The called name is a class of the package none of whose methods stores anything on self (a sentinel / marker object)."""
+    q = model.resolve_expr(module, func_expr) if model is not None else None
+    if q not in model.classes:
+        return False
+    for k in model.mro(q):
+        for fq, fi in model.funcs.items():
+            if fi.cls == k:
+                for n in ast.walk(fi.node):
+                    if isinstance(n, ast.Attribute) and isinstance(n.ctx, (ast.Store, ast.Del)) and isinstance(n.value, ast.Name) and n.value.id == 'self':
+                        return False
+    return True
+
+
+def _mutable_value(v, model=None, module=None):
     if isinstance(v, (ast.List, ast.Dict, ast.Set, ast.ListComp, ast.DictComp, ast.SetComp, ast.GeneratorExp)):
         return True
     if isinstance(v, ast.Call):
-        return src(v.func) not in IMMUTABLE_CALLS
+        if src(v.func) in IMMUTABLE_CALLS or src(v.func) == 'type':
+            return False
+        if model is not None and module is not None and _stateless_class(model, module, v.func):
+            return False
+        return True
     if isinstance(v, ast.BinOp):
-        return _mutable_value(v.left) or _mutable_value(v.right)
+        return _mutable_value(v.left, model, module) or _mutable_value(v.right, model, module)
     return False
 
 
@@ -244,13 +262,13 @@ def shared_escape(model, rep, cg, quals, control):
         fi = model.funcs[q]
         shared = {}
         for name, v in model.module_assigns.get(fi.module, {}).items():
-            if _mutable_value(v):
+            if _mutable_value(v, model, fi.module):
                 shared[name] = (fi.module, v)
         for name, target in model.imports.get(fi.module, {}).items():
             if target and '.' in target:
                 m_, n_ = target.rsplit('.', 1)
                 v = model.module_assigns.get(m_, {}).get(n_)
-                if v is not None and _mutable_value(v):
+                if v is not None and _mutable_value(v, model, m_):
                     shared[name] = (m_, v)
         if not shared:
             continue
